@@ -186,6 +186,14 @@ def mirror(W, cfg):
         if cfg.get('no_new_bound'):
             W.assume(S.n_update_iter + (K + 1) * S.n_batch < S.n_update)
             W.assume(S.n_like_iter + (K + 1) * S.n_batch < S.n_like_new_bound)
+        if cfg.get('toggle_before') and S.explored:
+            # the view is switched between two run() slices ("set
+            # afterwards"); the next batch boundary must again be resumable
+            flip = not S._discard_exploration
+            ok, _ = call(W, 'C12:setter-no-raise',
+                         lambda: setattr(S, 'discard_exploration', flip))
+            if not ok:
+                return
         args = setup_run_args(W, cfg, K)
         install_counters(S, unroll=cfg.get('unroll', 2) * (K + 1))
         iters, orig = limit_iterations(S, K)
@@ -200,6 +208,10 @@ def mirror(W, cfg):
         exists = symh5.Path(path).exists() if W.symbolic else \
             os.path.exists(path)
         if not iters and B0 == 0:
+            return
+        if cfg.get('toggle_before') and not iters:
+            # the setter alone writes nothing (a view change the script
+            # repeats); the claim is about the next batch boundary
             return
         W.require(exists, 'C05:checkpoint-exists', 'after run()')
         if not exists:
